@@ -41,6 +41,7 @@ type Profile struct {
 	SplitPct          int    // ... in this percentage of the cases only
 	LenientValidators bool   // in a third of the cases the consumers' validators do not object to a missing block
 	NoRejects         bool   // correct validators never reject good blocks
+	NilBlocks         bool   // one node's block factory now and then returns no block under a live context (before stabilisation, strict validators only)
 	ProoflessSyncs    bool   // one node's syncs come without the proof of the synced block half of the time (UpdateState(block, nil))
 	HonestOnly        bool   // no Byzantine ids at all
 	KeepTrace         bool
@@ -277,6 +278,24 @@ func RunCase(seed int64, p *Profile, idx int) *Result {
 	if p.LenientValidators && rng.Intn(3) == 0 {
 		for _, id := range w.Order {
 			w.Nodes[id].BU.AcceptNilBlock = true
+		}
+	}
+	if p.NilBlocks && rng.Intn(3) == 0 {
+		strict := true
+		for _, id := range w.Order {
+			strict = strict && !w.Nodes[id].BU.AcceptNilBlock
+		}
+		if strict {
+			nb := w.Nodes[w.Order[rng.Intn(len(w.Order))]]
+			left := 1 + rng.Intn(2)
+			nb.BU.NilLive = func(h uint64) bool {
+				if w.GST || left == 0 || rng.Intn(3) != 0 {
+					return false
+				}
+				left--
+				w.Mon.Stats["block factory returned no block under a live context"]++
+				return true
+			}
 		}
 	}
 	if p.CommitFailures && rng.Intn(2) == 0 {
